@@ -78,6 +78,9 @@ def verify(target_name, setup, post, config=None, ledger=None, max_paths=2000, c
         if __import__("os").environ.get("PYVC_TRACE"):
             raise
         ledger.record(f"{target_name}::subset", "subset", "unknown", "executor", 0.0, detail=f"outside subset: {exc}")
+    if not getattr(cfg, "modifies_args", False) and ex.paths:
+        # frame: no path wrote into an array of the caller (a violating path records `refuted` under the same name)
+        ledger.record(f"{target_name}::frame.no-write-to-caller-arrays", "frame", "discharged", "provenance", 0.0)
     if ex.paths == 0:
         ledger.record(f"{target_name}::cover.any-path", "cover", "unknown", "executor", 0.0, detail="no feasible path: vacuous")
     return ledger
